@@ -132,13 +132,39 @@ Definition ruleset_eqb (emitted template : list rule) : bool :=
 Definition enc_rules_ok (sg : sigT) (emitted : list (list rule)) : bool :=
   list_eqb ruleset_eqb emitted (prulesets (enc_prog sg)).
 
+(* ---------------------------------------------------------------- re-keying of subsume requests *)
+
+(** The model has no subsumed flag, but the RULE that re-keys pending [__to_subsume_f] requests
+    when a child's leader changes is compared with its template too ([rebuilding_subsumed_rules]):
+    (rule ((__to_subsume_f c0..) (= ci_leader (__UF_Sf ci)).. (guard (or (bool-!= ci ci_leader)..)))
+          ((__to_subsume_f c0'..) (delete (__to_subsume_f c0..))) :ruleset __rebuilding)
+    one lookup per eq-sort INPUT column; emitted for every constructor with at least one eq-sort
+    input (also when its inputs mix primitive and eq-sort columns). *)
+Definition tSub (f : nat) : nat := 1000 + f.
+
+Definition r_rebuild_sub (f : nat) (kinds : list bool) : rule :=
+  let n := length kinds in
+  let eqs := eq_cols kinds 0 in
+  mkRule (mkAtom (tSub f) (seq 0 n ++ [2 * n + 2]) :: map (fun i => mkAtom tUFf [i; lead n i]) eqs)
+         [GAnyNeq (map (fun i => (EVar i, EVar (lead n i))) eqs)]
+         [ASet (tSub f) (new_cols n kinds 0) EUnit; ADel (tSub f) (map EVar (seq 0 n))].
+
+Fixpoint sub_rules (sg : sigT) (f : nat) : list rule :=
+  match sg with
+  | [] => []
+  | kinds :: tl => (if existsb (fun b => b) kinds then [r_rebuild_sub f kinds] else []) ++ sub_rules tl (S f)
+  end.
+
 (* ---------------------------------------------------------------- cases written by h_modes *)
 
 Record mcase2 := mkCase2 {
   c2_case : mcase;
+  (** the [__rebuild_to_subsume_rule]s as emitted by the real encoder for [c_sig] *)
+  c2_sub : option (list rule);
   (** the rulesets __parent, __single_parent, __uf_function_index, __rebuilding,
       __rebuilding_cleanup, __delete_subsume_ruleset as emitted by the real encoder for [c_sig]
-      (rules over the __to_subsume tables, which the model does not have, left out) *)
+      (the rules over the __to_subsume tables are compared separately, [c2_sub]; [__delete_rule_subsume],
+      whose action the model cannot express, is left out) *)
   c2_rules : option (list (list rule))
 }.
 
@@ -146,6 +172,10 @@ Definition check_case2 (c : mcase2) : bool :=
   check_case (c2_case c) &&
   match c2_rules c with
   | Some rs => enc_rules_ok (c_sig (c2_case c)) rs
+  | None => true
+  end &&
+  match c2_sub c with
+  | Some rs => ruleset_eqb rs (sub_rules (c_sig (c2_case c)) 0)
   | None => true
   end.
 
